@@ -306,8 +306,34 @@ static void check_helpers(ByteSource& in, CaseInfo& ci) {
 }
 static void check(ByteSource& in, CaseInfo& ci) { if (in.chance(26)) { check_helpers(in, ci); return; } if (in.pick({3, 2}) == 0) check_mpn(in, ci); else check_mpz(in, ci); }
 
+// ---- exhaustive sweep: every pair of signed values of up to three limbs with limbs from {0,1,2^63-1,2^63,2^64-2,2^64-1} ----------
+static uint64_t sweep_count() { return 432ull * 432ull; }
+static void sweep_item(uint64_t i, CaseInfo& ci) {
+  uint64_t ia = i % 432, ib = i / 432; Int A = palette_int(ia % 216, 3), B = palette_int(ib % 216, 3); if (ia >= 216) A = -A; if (ib >= 216) B = -B;
+  ci.d("a=%s b=%s", show(A).c_str(), show(B).c_str());
+  mpz_t a, b, r; mpz_init(a); mpz_init(b); mpz_init(r); struct Clr { mpz_ptr x, y, z; ~Clr() { mpz_clear(x); mpz_clear(y); mpz_clear(z); } } clr{a, b, r}; mpz_from_int(a, A); mpz_from_int(b, B);
+  mpz_add(r, a, b); REQUIRE_WF(r, "mpz_add"); REQUIRE(int_from_mpz(r) == A + B, "mpz_add(%s, %s)", show(A).c_str(), show(B).c_str());
+  mpz_sub(r, a, b); REQUIRE_WF(r, "mpz_sub"); REQUIRE(int_from_mpz(r) == A - B, "mpz_sub(%s, %s)", show(A).c_str(), show(B).c_str());
+  { mpz_set(r, a); mpz_add(r, r, b); REQUIRE_WF(r, "mpz_add"); REQUIRE(int_from_mpz(r) == A + B, "mpz_add(r=a, b) in place (%s, %s)", show(A).c_str(), show(B).c_str()); mpz_set(r, b); mpz_sub(r, a, r); REQUIRE_WF(r, "mpz_sub"); REQUIRE(int_from_mpz(r) == A - B, "mpz_sub(r, a, r=b) in place (%s, %s)", show(A).c_str(), show(B).c_str()); }
+  uint64_t u = B.low(); Int U = Int::from_u64(u);
+  mpz_add_ui(r, a, u); REQUIRE_WF(r, "mpz_add_ui"); REQUIRE(int_from_mpz(r) == A + U, "mpz_add_ui(%s, %llu)", show(A).c_str(), (unsigned long long)u);
+  mpz_sub_ui(r, a, u); REQUIRE_WF(r, "mpz_sub_ui"); REQUIRE(int_from_mpz(r) == A - U, "mpz_sub_ui(%s, %llu)", show(A).c_str(), (unsigned long long)u);
+  mpz_ui_sub(r, u, a); REQUIRE_WF(r, "mpz_ui_sub"); REQUIRE(int_from_mpz(r) == U - A, "mpz_ui_sub(%llu, %s)", (unsigned long long)u, show(A).c_str());
+  { mpz_set(r, a); mpz_ui_sub(r, u, r); REQUIRE_WF(r, "mpz_ui_sub"); REQUIRE(int_from_mpz(r) == U - A, "mpz_ui_sub(r, %llu, r) in place, r = %s", (unsigned long long)u, show(A).c_str()); }
+  if (ib < 6) { static const unsigned sh[] = {0, 1, 63, 64, 65, 128}; mpz_mul_2exp(r, a, sh[ib]); REQUIRE_WF(r, "mpz_mul_2exp"); REQUIRE(int_from_mpz(r) == ref::shl(A, sh[ib]), "mpz_mul_2exp(%s, %u)", show(A).c_str(), sh[ib]);
+    mpz_neg(r, a); REQUIRE(int_from_mpz(r) == -A, "mpz_neg(%s)", show(A).c_str()); mpz_abs(r, a); REQUIRE(int_from_mpz(r) == A.abs(), "mpz_abs(%s)", show(A).c_str()); }
+  // mpn level on the three-limb magnitudes
+  if (ia < 216 && ib < 216) { uint64_t x[3] = {0, 0, 0}, y[3] = {0, 0, 0}, t[3]; for (size_t k = 0; k < A.m.size(); k++) x[k] = A.m[k]; for (size_t k = 0; k < B.m.size(); k++) y[k] = B.m[k]; Int X = Int::from_limbs(x, 3), Y = Int::from_limbs(y, 3), B3 = ref::pow2(192), q, rr;
+    uint64_t c = mpn_add_n(t, x, y, 3); ref::fdivrem(X + Y, B3, q, rr); REQUIRE(Int::from_limbs(t, 3) == rr && Int::from_u64(c) == q, "mpn_add_n(%s, %s)", show(X).c_str(), show(Y).c_str());
+    c = mpn_sub_n(t, x, y, 3); ref::fdivrem(X - Y, B3, q, rr); REQUIRE(Int::from_limbs(t, 3) == rr && Int::from_u64(c) == -q, "mpn_sub_n(%s, %s)", show(X).c_str(), show(Y).c_str());
+    c = mpn_add_1(t, x, 3, y[0]); ref::fdivrem(X + Int::from_u64(y[0]), B3, q, rr); REQUIRE(Int::from_limbs(t, 3) == rr && Int::from_u64(c) == q, "mpn_add_1(%s, %llu)", show(X).c_str(), (unsigned long long)y[0]);
+    c = mpn_sub_1(t, x, 3, y[0]); ref::fdivrem(X - Int::from_u64(y[0]), B3, q, rr); REQUIRE(Int::from_limbs(t, 3) == rr && Int::from_u64(c) == -q, "mpn_sub_1(%s, %llu)", show(X).c_str(), (unsigned long long)y[0]);
+    c = mpn_neg(t, x, 3); ref::fdivrem(-X, B3, q, rr); REQUIRE(Int::from_limbs(t, 3) == rr && (c != 0) == !X.is_zero(), "mpn_neg(%s)", show(X).c_str());
+    REQUIRE((mpn_cmp(x, y, 3) > 0) == (X > Y) && (mpn_cmp(x, y, 3) < 0) == (X < Y), "mpn_cmp(%s, %s)", show(X).c_str(), show(Y).c_str()); }
+}
 namespace eng {
 PropDef g_prop = {"C03",
   "Cases: one call of a three-operand helper of the anchor files (mpn_addadd_n x+y+z, mpn_addsub_n x+y-z, mpn_subadd_n x-y-z with every pattern of sources being the destination, mpn_sumdiff_n with s and d separate or equal to a source; result limbs and the returned carry/borrow count), or of one of the 14 mpn functions (lengths 1..40 dense, ..300, log-uniform to the scale cap; limb styles uniform/runs/palette/all-ones/single-bit/low-zero; constructed full carry and borrow chains; in-place and the permitted partial overlaps rp=sp+k for lshift/copyd, rp=sp-k for rshift/copyi inside one arena) or of the 10 mpz functions (all sign combinations, equal magnitude, one-bit difference, |a|=ui, aliasing of destination and sources). Oracle: refint arithmetic on the limb vectors, returned carry/borrow/shifted-out limb, guard limbs, sources unchanged. Non-trivial: length >= 2 (mpn) or an operand of >= 2 limbs / a size-changing result (mpz). Distinct = hash of all decoded choices.",
-  check, nullptr, {"carry_full_chain", "overlap_partial_lshift", "overlap_partial_rshift", "cancel_to_zero", "inplace", "mpn_addadd_n", "mpn_addsub_n", "mpn_subadd_n", "mpn_sumdiff_n", "helper:dest_is_two_sources"}};
+  check, nullptr, {"carry_full_chain", "overlap_partial_lshift", "overlap_partial_rshift", "cancel_to_zero", "inplace", "mpn_addadd_n", "mpn_addsub_n", "mpn_subadd_n", "mpn_sumdiff_n", "helper:dest_is_two_sources"}, nullptr, sweep_count, sweep_item,
+  "every pair of signed values of up to three limbs with limbs from {0,1,2^63-1,2^63,2^64-2,2^64-1} (432 x 432): mpz_add, mpz_sub (also in place), mpz_add_ui, mpz_sub_ui, mpz_ui_sub (also in place), mpz_mul_2exp by 0,1,63,64,65,128, mpz_neg, mpz_abs; mpn_add_n, mpn_sub_n, mpn_add_1, mpn_sub_1, mpn_neg, mpn_cmp on the three-limb magnitudes"};
 }
